@@ -139,6 +139,54 @@ func staleStatusScenario(pol asv1.PodManagementPolicyType, edit string) func(*fa
 	}
 }
 
+// C12 directed: the set cache misses the status written when a rollout completed; a later reconcile
+// (pod cache fresh) computes its status from that stale copy, its write conflicts, the cache catches
+// up, and the retry is accepted.
+func staleStatusRegress(pol asv1.PodManagementPolicyType) func(*fam) {
+	return func(f *fam) {
+		w, r := f.w, f.r
+		r.Sets = []string{"web"}
+		p := int32(0)
+		w.Srv.Seed(simapi.Sets, world.NewSet(world.SetOpts{Name: "web", Replicas: 2, Policy: pol, Partition: &p, HistLimit: 3}))
+		r.Trace = append(r.Trace, "directed stale-status regress scenario")
+		if cr := r.Calm(1); !cr.Converged {
+			f.res.Inconclusive = append(f.res.Inconclusive, "stale-status regress scenario did not reach its start state")
+			return
+		}
+		w.EditSet("web", func(s *asv1.StatefulSet) { s.Spec.Template = world.Template(s.Spec.Selector.MatchLabels, 1) })
+		w.DeliverAll() // the cache sees the new template; from here on set events are withheld
+		for i := 0; i < 40; i++ {
+			for _, n := range w.PodNames() {
+				w.Kubelet(n, "settle")
+			}
+			w.Deliver(simapi.Pods, -1)
+			w.Deliver(simapi.PVCs, -1)
+			w.CatchUp, w.CatchUpOneByOne = true, false
+			r.Reconcile("web")
+			w.CatchUp = false
+			s := w.GetSet("web")
+			if s.Status.CurrentRevision == s.Status.UpdateRevision && s.Status.UpdatedReplicas == 2 && s.Status.ReadyReplicas == 2 {
+				break
+			}
+		}
+		// rollout complete in the API; the cached set may lag behind by the last status writes
+		cached := w.CachedSet(world.NS, "web")
+		api := w.GetSet("web")
+		if cached != nil && cached.Status.CurrentRevision != api.Status.CurrentRevision {
+			f.st.Inc("stale_status_regress_scenarios_armed")
+		}
+		w.Kubelet("web-0", "unready")
+		w.Kubelet("web-1", "unready")
+		w.Deliver(simapi.Pods, -1)
+		w.CatchUp, w.CatchUpOneByOne = true, true
+		r.Reconcile("web")
+		w.CatchUp, w.CatchUpOneByOne = false, false
+		w.DeliverAll()
+		r.Calm(1)
+		f.st.Inc("stale_status_regress_scenarios")
+	}
+}
+
 // C08 directed: a pre-existing revision with the name the controller is about to choose.
 func collisionScenario(sameData bool) func(*fam) { return collisionScenario2(sameData, false, false) }
 
@@ -226,5 +274,6 @@ func init() {
 	directedC08 = []func(*fam){collisionScenario(false), collisionScenario(true),
 		collisionScenario2(false, true, true), collisionScenario2(false, true, false), collisionScenario2(false, false, true), collisionScenario2(true, true, true)}
 	directedC12 = []func(*fam){staleStatusScenario(asv1.ParallelPodManagement, "labels"), staleStatusScenario(asv1.OrderedReadyPodManagement, "labels"),
-		staleStatusScenario(asv1.ParallelPodManagement, "generation"), staleStatusScenario(asv1.OrderedReadyPodManagement, "generation")}
+		staleStatusScenario(asv1.ParallelPodManagement, "generation"), staleStatusScenario(asv1.OrderedReadyPodManagement, "generation"),
+		staleStatusRegress(asv1.ParallelPodManagement), staleStatusRegress(asv1.OrderedReadyPodManagement)}
 }
